@@ -465,6 +465,12 @@ func (h *hist) step() (name, desc string, ok bool) {
 			h.log = append(h.log, d+" -> error: "+Trunc(err.Error(), 80))
 			return op.name, d, false
 		}
+		// histories stay inside the domain of the properties: at least 3 tips (a non-monophyletic
+		// outgroup removed in non-strict mode takes its whole enclosing clade along)
+		if len(h.t.Tips()) < 3 {
+			h.t, h.singles = backup, bs
+			continue
+		}
 		h.log = append(h.log, d)
 		return op.name, d, true
 	}
